@@ -305,7 +305,18 @@ pub fn eval(e: &E, cx: &mut Cx) -> Result<Vec<V>, Stop> {
                     out
                 }
                 VarKind::StrLit(s) => vec![V::S(s.clone())],
-                VarKind::Expr(_) => return undef("expression variable used textually"),
+                // referred to directly only where the generators know the value is evaluated as an expression of
+                // its own (conditions): value semantics, as through a reference variable
+                VarKind::Expr(items) => {
+                    if cx.active.contains(name) { return fail("circular variable reference"); }
+                    cx.active.push(name.clone());
+                    let mut out = vec![];
+                    for it in items {
+                        out.extend(eval(it, cx)?);
+                    }
+                    cx.active.pop();
+                    out
+                }
                 VarKind::Ref(target) => {
                     // value semantics of the referenced variable; a reference chain that comes back is circular
                     let mut cur = target.clone();
@@ -573,6 +584,10 @@ pub struct Gen<'a> {
     pub env: Vec<VarDef>,
     pub allow_random: bool,
     pub allow_strings: bool,
+    /// expression variables may be referred to directly (not only through a reference variable): right
+    /// where the value of a variable is evaluated as a sub-expression - conditions - and wrong where `$v` is
+    /// substituted textually before the expression is read (attributes)
+    pub direct_expr_vars: bool,
 }
 
 fn lit(rng: &mut Rng) -> String {
@@ -593,7 +608,7 @@ const WORDS: [&str; 10] = ["a", "bc", "hello", "x y", " pad ", "a,b,c", "one two
 
 impl<'a> Gen<'a> {
     pub fn new(rng: &'a mut Rng) -> Self {
-        Gen { rng, env: vec![], allow_random: true, allow_strings: true }
+        Gen { rng, env: vec![], allow_random: true, allow_strings: true, direct_expr_vars: false }
     }
 
     /// scalar / list / string literal variables, expression variables and references to them
@@ -644,7 +659,9 @@ impl<'a> Gen<'a> {
 
     fn scalar_vars(&self) -> Vec<String> {
         let env = &self.env;
+        let direct = self.direct_expr_vars;
         self.vars_where(|d| match &d.kind {
+            VarKind::Expr(items) if direct => items.len() == 1,
             VarKind::Lit(v) => v.len() == 1,
             VarKind::Ref(t) => env.iter().any(|e| &e.name == t && matches!(&e.kind, VarKind::Expr(items) if items.len() == 1)),
             _ => false,
@@ -1602,6 +1619,9 @@ fn entry_stream(rep: &mut Report, drv: &mut Driver, rng: &mut Rng, n: usize) -> 
             }
             which => {
                 let mut g = Gen::new(rng);
+                // a condition evaluates the value of `$v` as an expression of its own: `$sum * 2` with
+                // sum = "1 + 1" is 4, not 1 + 1 * 2
+                g.direct_expr_vars = which == 1;
                 g.make_env();
                 let d = 1 + g.rng.below(5);
                 let items = if which == 1 { vec![g.num(d)] } else { g.top(d) };
@@ -1692,6 +1712,8 @@ struct DocGen<'a> {
     comments: Vec<String>, // expected comments in order
     nvar: usize,
     contexts: Vec<&'static str>,
+    /// the next expression may refer to expression-valued variables directly (conditions only)
+    direct_next: bool,
 }
 
 impl<'a> DocGen<'a> {
@@ -1702,6 +1724,7 @@ impl<'a> DocGen<'a> {
             g.env = self.env.clone();
             g.allow_random = allow_random;
             g.allow_strings = !numeric;
+            g.direct_expr_vars = self.direct_next;
             let d = 1 + g.rng.below(4);
             let items = if numeric { vec![g.num(d)] } else { g.top(d) };
             let body = print_top(&items, g.rng, 8);
@@ -1831,7 +1854,49 @@ impl<'a> DocGen<'a> {
             8 if depth == 0 => {
                 // <if test>
                 let allow_random = self.rng.chance(1, 2);
-                if let Some((src, val, _v)) = self.expr(true, allow_random) {
+                // one test in two is preceded by a variable whose value is a compound expression written
+                // without parentheses (`<var e3="1 + 2"/>`): a test evaluates `$e3` as an expression of its
+                // own, so `$e3 * 2` is 6
+                if self.rng.chance(1, 2) {
+                    let mut g = Gen::new(self.rng);
+                    g.allow_random = false;
+                    g.allow_strings = false;
+                    let it = vec![g.num(2)];
+                    let text = print_top(&it, g.rng, 8);
+                    if !text.contains('$') && !text.contains('{') {
+                        self.nvar += 1;
+                        let name = format!("e{}", self.nvar);
+                        self.xml.push(format!("<var {name}=\"{}\"/>", xml_escape_attr(&text)));
+                        self.env.push(VarDef { name, text, kind: VarKind::Expr(it) });
+                    }
+                }
+                self.direct_next = true;
+                let pcg0 = self.pcg.clone();
+                let mut got = self.expr(true, allow_random);
+                self.direct_next = false;
+                // ... and when such a variable exists, half of the tests use it as the operand of an operator
+                // that binds tighter than the ones inside its value: `$e3 * 2`, `7 % $e3`, `-$e3`, `4 - $e3`
+                let evars: Vec<String> = self.env.iter().filter(|d| matches!(&d.kind, VarKind::Expr(it) if it.len() == 1)).map(|d| d.name.clone()).collect();
+                if !evars.is_empty() && self.rng.chance(1, 2) {
+                    let v = E::Var(evars[self.rng.below(evars.len())].clone(), self.rng.chance(1, 3));
+                    let k = E::Num((2 + self.rng.below(4)).to_string());
+                    let arith = match self.rng.below(4) {
+                        0 => E::Bin('*', Box::new(v), Box::new(k)),
+                        1 => E::Bin('-', Box::new(k), Box::new(v)),
+                        2 => E::Neg(Box::new(v)),
+                        _ => E::Bin('/', Box::new(k), Box::new(v)),
+                    };
+                    let items = vec![E::Cmp(*self.rng.pick(&["lt", "ge", "eq", "ne"]), Box::new(arith), Box::new(E::Num(self.rng.below(9).to_string())))];
+                    let body = print_top(&items, self.rng, 8);
+                    // (the test generated above is dropped, and with it the random words it drew)
+                    let mut trial = pcg0.clone();
+                    if let Ok(vv) = eval_items(&items, &self.env, &mut trial) {
+                        if let Some(sv) = doc_value(&vv) {
+                            if vv.len() == 1 { self.pcg = trial; got = Some((format!("{{{{{body}}}}}"), sv, vv)); }
+                        }
+                    }
+                }
+                if let Some((src, val, _v)) = got {
                     // a test is judged on the value as the document shows it (3 decimals): 0.0003 is "0"
                     let truth = val.parse::<f32>().map(|x| x != 0.0).unwrap_or(false);
                     let test = if self.rng.chance(1, 2) { src.clone() } else { src.trim_start_matches("{{").trim_end_matches("}}").to_string() };
@@ -1915,7 +1980,7 @@ fn doc_stream(rep: &mut Report, rng: &mut Rng, n: usize) -> Result<(), String> {
     );
     for case in 0..n {
         let seed = rng.below(4) as u64;
-        let mut dg = DocGen { rng, env: vec![], pcg: RefPcg::seed(seed), xml: vec![], data: vec![], texts: vec![], comments: vec![], nvar: 0, contexts: vec![] };
+        let mut dg = DocGen { rng, env: vec![], pcg: RefPcg::seed(seed), xml: vec![], data: vec![], texts: vec![], comments: vec![], nvar: 0, contexts: vec![], direct_next: false };
         let blocks = 2 + dg.rng.below(6);
         for _ in 0..blocks { dg.block(0); }
         let damaged = case % 10 == 9;
